@@ -430,6 +430,47 @@ def r04_2(ctx):
                         if b.raw.get("impl_self_adt") != adt:
                             bad.append(b.id)
         ctx.ob("G7:cursor-fields-encapsulated", not bad and nw >= 3, adt, f"{nw} write(s) to the pos/len fields, all inside the type's own methods" if not bad else f"pos/len written from outside: {bad}")
+        # representation invariant pos <= len behind `&buf[pos..len]`: which field is which is read off
+        # the Range that slices the array; `len` may grow additively, any other store into `len` (a reset)
+        # must come with `pos = 0` on the same path
+        pos_f = len_f = None
+        for b in lib.bodies:
+            if b.raw.get("impl_self_adt") != adt:
+                continue
+            for bi, blk in enumerate(b.blocks):
+                for s in blk["stmts"]:
+                    if s["k"] == "assign" and s["rv"]["k"] == "aggregate" and s["rv"].get("adt") == "std::ops::Range" and len(s["rv"]["ops"]) == 2:
+                        fs = []
+                        for o in s["rv"]["ops"]:
+                            tr = trace(b, o)
+                            fs.append(next((st_[1] for st_ in tr.steps if st_[0] == "field" and st_[2] == adt), None))
+                        if all(fs) and fs[0] != fs[1]:
+                            pos_f, len_f = fs
+        ctx.ob("G7:pos-len-identified", pos_f is not None, adt, f"unread window is buf[{pos_f}..{len_f}]")
+        if pos_f is not None:
+            for b in lib.bodies:
+                if b.raw.get("impl_self_adt") != adt:
+                    continue
+                pos_zero = []
+                for bi, blk in enumerate(b.blocks):
+                    for s in blk["stmts"]:
+                        if s["k"] == "assign" and s["p"]["pr"] and s["p"]["pr"][-1]["k"] == "field" and s["p"]["pr"][-1].get("adt") == adt and s["p"]["pr"][-1]["name"] == pos_f and s["rv"]["k"] == "use" and const_value(s["rv"]["op"]) == 0:
+                            pos_zero.append(bi)
+                for bi, blk in enumerate(b.blocks):
+                    for s in blk["stmts"]:
+                        if not (s["k"] == "assign" and s["p"]["pr"] and s["p"]["pr"][-1]["k"] == "field" and s["p"]["pr"][-1].get("adt") == adt and s["p"]["pr"][-1]["name"] == len_f):
+                            continue
+                        rv = s["rv"]
+                        additive = False
+                        if rv["k"] == "use" and is_place(rv["op"]):
+                            tr = trace(b, rv["op"])
+                            if tr.origin and tr.origin[0] == "rvalue" and tr.origin[1]["rv"]["k"] == "binop" and tr.origin[1]["rv"]["op"].startswith("Add"):
+                                a_ = trace(b, tr.origin[1]["rv"]["a"])
+                                additive = any(st_[0] == "field" and st_[1] == len_f for st_ in a_.steps)
+                        if additive:
+                            continue
+                        ok_r = any(b.dominates(z, bi) for z in pos_zero) or (bool(pos_zero) and b.must_pass(bi, b.return_blocks(), pos_zero)) or bi in pos_zero
+                        ctx.ob(f"G7:reset-keeps-pos-le-len:{b.name}", ok_r, site(b, bi), f"`{len_f}` is re-initialised together with `{pos_f} = 0`" if ok_r else f"`{len_f}` is reset while `{pos_f}` keeps its old value: buf[{pos_f}..{len_f}] can panic with start > end")
 
 
 @rule("R04.3", 8, "use-once typestate behind take_parent().expect(): each State-bearing object is handed to exactly one driver call per construction; take_parent is reached at most once per body", ["C04"])
